@@ -931,6 +931,29 @@ def _py_start(code, offset):
   return None
 
 
+def _py_line(code, line):
+  """Line-level pre-emption (sim.fine == 'line'): every line of the registered
+  source files is a scheduling point, so races between two statements without
+  any call or lock operation in between are reachable too."""
+  if code.co_filename not in _fine_files:
+    return sys.monitoring.DISABLE
+  s = Sim.current
+  if s is not None and s.fine == 'line' and not s.aborting:
+    if _real_get_ident() == s.cur.real_ident:
+      f = sys._getframe(1)  # pylint: disable=protected-access
+      for _ in range(4):
+        if f is None:
+          break
+        if f.f_code.co_name in _IMPLICIT:
+          return None
+        f = f.f_back
+      s.fine_yields += 1
+      if FULL_LOG is not None:
+        FULL_LOG.append(('ln', code.co_qualname, line))
+      s.yield_point('ln')
+  return None
+
+
 def setup_fine(files):
   """Registers the monitoring tool; `files` are the source files to pre-empt in."""
   global _mon_ready
@@ -940,6 +963,7 @@ def setup_fine(files):
   mon = sys.monitoring
   mon.use_tool_id(_TOOL, 'simkit')
   mon.register_callback(_TOOL, mon.events.PY_START, _py_start)
+  mon.register_callback(_TOOL, mon.events.LINE, _py_line)
   _mon_ready = True
 
 
@@ -947,7 +971,12 @@ def set_fine(on):
   if not _mon_ready:
     return
   mon = sys.monitoring
-  mon.set_events(_TOOL, mon.events.PY_START if on else 0)
+  ev = 0
+  if on:
+    ev = mon.events.PY_START
+    if on == 'line':
+      ev |= mon.events.LINE
+  mon.set_events(_TOOL, ev)
 
 
 # --------------------------------------------------------------------------
